@@ -509,6 +509,9 @@ func actions(r *rng.R) []action {
 		{name: "Gridsnap", f: func(p, q *canvas.Path) { p.Gridsnap(0.25) }, inPlace: true},
 		{name: "Append", f: func(p, q *canvas.Path) { p.Append(q) }, inPlace: true, binary: true},
 		{name: "Join", f: func(p, q *canvas.Path) { p.Join(q) }, inPlace: true, binary: true},
+		// the returned paths of Append / Join (also from an empty receiver) are probed for shared memory like every other result
+		{name: "Append(result)", f: func(p, q *canvas.Path) { keep(p.Copy().Append(q), (&canvas.Path{}).Append(q), (&canvas.Path{}).Append(p, q)) }, binary: true},
+		{name: "Join(result)", f: func(p, q *canvas.Path) { keep(p.Copy().Join(q), (&canvas.Path{}).Join(q)) }, binary: true},
 	}
 }
 
@@ -607,6 +610,18 @@ func observe(r *rng.R, p, q *canvas.Path, newPath map[string]bool, skip map[stri
 							fs = append(fs, finding{a.name, "result-shares-memory-with-sibling", fmt.Sprintf("QuadTo appended to returned path %d changed returned path %d: %s", k, j, d)})
 							sib[j].restore(o)
 						}
+					}
+				}
+				// ... and neither must an in-place edit of its coordinates (Translate rewrites every stored point)
+				sr3, sq3 := snapshot(recv), snapshot(arg)
+				if msg := safe(func() { rp.Translate(3e6, -2e6) }); msg == "" {
+					if d := sr3.diffVisible(recv); d != "" {
+						fs = append(fs, finding{a.name, "result-shares-memory-with-receiver", "Translate of returned path " + strconv.Itoa(k) + ": " + d})
+						sr3.restore(recv)
+					}
+					if d := sq3.diffVisible(arg); d != "" && a.binary {
+						fs = append(fs, finding{a.name, "result-shares-memory-with-argument", "Translate of returned path " + strconv.Itoa(k) + ": " + d})
+						sq3.restore(arg)
 					}
 				}
 			}
